@@ -141,7 +141,8 @@ TrResolve ==
 \* (a pointer that is missing or does not parse yields no version: the code then resolves by scanning,
 \*  which arrives as a separate Resolve event)
 \* on the in-memory S3 the event carries the requests the call issued: the model's step is atomic, so it must be ONE request
-OneRequest(op) == "reqs" \in DOMAIN ev => ev.reqs = <<op>>
+\* (a request that fails may be retried by the storage layer: several requests of the same kind, all failing alike)
+OneRequest(op) == "reqs" \in DOMAIN ev => IF ev.ok THEN ev.reqs = <<op>> ELSE \A i \in 1..Len(ev.reqs) : ev.reqs[i] = op
 
 TrReadHintEtag ==
   /\ IsEv("ReadHintEtag")
